@@ -32,6 +32,11 @@ use naga::valid::Capabilities as WgslCapabilities;
 #[path = "../../spec/lib/model_c11.rs"] pub mod model_c11;
 #[path = "../../spec/lib/model_bindgroup.rs"] pub mod model_bindgroup;
 #[path = "../../spec/lib/model_lib.rs"] pub mod model_lib;
+#[path = "../../spec/lib/model_types.rs"] pub mod model_types;
+#[path = "../../spec/lib/model_reach.rs"] pub mod model_reach;
+#[path = "../../spec/lib/model_structs.rs"] pub mod model_structs;
+#[path = "../../spec/lib/model_consts.rs"] pub mod model_consts;
+#[path = "../../spec/lib/model_entry.rs"] pub mod model_entry;
 #[path = "../../spec/lib/model_main.rs"] pub mod model_main;
 #[path = "../../spec/lib/print_model.rs"] pub mod print_model;
 #[path = "../../spec/lib/naga_front.rs"] pub mod naga_front;
@@ -43,6 +48,11 @@ use model_common::*;
 use model_c11::*;
 use model_bindgroup::*;
 use model_lib::*;
+use model_types::*;
+use model_reach::*;
+use model_structs::*;
+use model_consts::{consts_wf, consts_items, overrides_supported, overrides_toks};
+use model_entry::{entries_wf, entry_consts_toks, fragment_states_toks};
 use model_main::*;
 use print_model::*;
 use naga_front::*;
@@ -209,31 +219,37 @@ pub fn entry_stages(module: &naga::Module) -> «(r:» wgpu::ShaderStages«)
 }
 pub mod structs {
     use super::*;
-//@stub structs.rs::structs
+//@stub structs.rs::structs proved-in=structs
 «#[verifier::external_body]»
 pub fn structs(module: &naga::Module, options: WriteOptions) -> «(r:» TokenStream«)
-    requires pre_structs(module, struct_opts(options)),
-    ensures ts_view(&r) == spec_structs(module, struct_opts(options)),»
+    requires
+        structs_pre(module, options), // [C08.pre] naga can lay out the module; type handles in range; every emitted struct is inside the documented feature set
+    ensures
+        ts_view(&r) == structs_toks(module, options), // [C08.emitted] [C18.arena-order] a struct is emitted iff it is reachable from the type of a module-scope variable, or is an entry parameter that is not an entry result; in arena order, once each; host-shareable = reachable from a module-scope variable»
 { unimplemented!() }
 //@end
 
 }
 pub mod consts {
     use super::*;
-//@stub consts.rs::consts
+//@stub consts.rs::consts proved-in=consts
 «#[verifier::external_body]»
 pub fn consts(module: &naga::Module) -> «(r:» Vec<TokenStream>«)
-    requires pre_consts(module),
-    ensures toks_of(r@) == spec_consts(module),»
+    requires
+        consts_wf(module), // [C15.pre] expression and type handles in range (naga invariant)
+    ensures
+        toks_of(r@) =~= consts_items(module), // [C15.items] every named constant of scalar type: `pub const NAME: TY = VALUE;` with the Rust type of the WGSL type and a literal carrying exactly the constant-evaluated value; every other constant: no tokens; arena order»
 { unimplemented!() }
 //@end
 
 }
-//@stub consts.rs::pipeline_overridable_constants
+//@stub consts.rs::pipeline_overridable_constants proved-in=consts
 «#[verifier::external_body]»
 pub fn pipeline_overridable_constants(module: &naga::Module) -> «(r:» TokenStream«)
-    requires pre_overrides(module),
-    ensures ts_view(&r) == spec_overrides(module),»
+    requires
+        overrides_supported(module), // [C12.pre] overrides are named, of a supported scalar type, type handles in range
+    ensures
+        ts_view(&r) == overrides_toks(module), // [C12.struct] one field per override in order (Option<T> exactly when there is a default); the map has every required override and inserts exactly the optional ones that are set, keyed by decimal @id or else by name, value as f64 (bool as 1.0/0.0); nothing is emitted when there are no overrides»
 { unimplemented!() }
 //@end
 
@@ -245,11 +261,11 @@ pub fn vertex_struct_methods(module: &naga::Module) -> «(r:» TokenStream«)
 { unimplemented!() }
 //@end
 
-//@stub entry.rs::entry_point_constants
+//@stub entry.rs::entry_point_constants proved-in=entry
 «#[verifier::external_body]»
 pub fn entry_point_constants(module: &naga::Module) -> «(r:» TokenStream«)
-    requires pre_entry_consts(module),
-    ensures ts_view(&r) == spec_entry_consts(module),»
+    ensures
+        ts_view(&r) == entry_consts_toks(module.entry_points@), // [C14.entry-consts] one `pub const ENTRY_{UPPER}: &str = "exact WGSL name";` per entry point, in order»
 { unimplemented!() }
 //@end
 
@@ -261,11 +277,13 @@ pub fn vertex_states(module: &naga::Module) -> «(r:» TokenStream«)
 { unimplemented!() }
 //@end
 
-//@stub entry.rs::fragment_states
+//@stub entry.rs::fragment_states proved-in=entry
 «#[verifier::external_body]»
 pub fn fragment_states(module: &naga::Module) -> «(r:» TokenStream«)
-    requires pre_fragment_states(module),
-    ensures ts_view(&r) == spec_fragment_states(module),»
+    requires
+        entries_wf(module), // [C14.frag-pre] result type handles in range (naga invariant)
+    ensures
+        ts_view(&r) == fragment_states_toks(module), // [C14.fragment-states] [C12.fragment-pass-through] per fragment entry a helper asking for exactly the needed number of colour targets, naming the entry through its ENTRY_ constant and passing overrides.constants() iff the module has overrides; fragment_state forwards module, name, targets, constants unchanged»
 { unimplemented!() }
 //@end
 
@@ -369,6 +387,7 @@ fn create_shader_module_inner(
     let entry_stages = wgsl::entry_stages(&module);
 
     // Write all the structs, including uniforms and entry function inputs.
+    «proof { lemma_structs_noninterference(&module, options, opts_of(so)); }»
     let structs = structs::structs(&module, options);
     let consts = consts::consts(&module);
     let bind_groups_module = bind_groups_module(&bind_group_data, &global_stages);
